@@ -285,6 +285,29 @@ func provenance(b *harness.B, c *chaingen.Chain, s sample) {
 			}
 		}
 	}
+	// while the chain holds an even number of timestamps their median may fall on a half second: a header stamped
+	// between the whole second and the median is the same block as its decoded copy (whole seconds only)
+	if med := chaingen.Median(s.cs); s.valid && med.Nanosecond() != 0 {
+		sub := chaingen.CloneBlock(s.b)
+		sub.Timestamp = med.Truncate(time.Second).Add(700 * time.Millisecond)
+		f := s.cs.NonceFactor()
+		if f == 0 {
+			f = 1
+		}
+		for i := 0; i < 1<<16 && sub.ID().CmpWork(s.cs.ChildTarget) < 0; i++ {
+			sub.Nonce += f
+		}
+		dec := chaingen.CloneBlock(sub)
+		dec.Timestamp = time.Unix(sub.Timestamp.Unix(), 0)
+		if sub.ID() == dec.ID() {
+			a, d := evaluate(s.cs, sub, s.bs, c), evaluate(s.cs, dec, s.bs, c)
+			b.Eval(1)
+			b.Count("half_second_median_timestamp_comparisons", 1)
+			if diff := a.equal(d); diff != "" {
+				b.Violate("C09/provenance/sub-second-timestamp-vs-decoded-copy/header-between-the-whole-second-and-a-half-second-median", "a header stamped 0.7 s into the second of a half-second median and its decode(encode()) copy (same ID, same bytes) give different results: "+diff, wit)
+			}
+		}
+	}
 	// the verdict depends on the state passed in, not on which states were looked at before: a v2 block commits to
 	// its parent state, so against a state that differs in one field (same chain index) it must be refused, whatever
 	// was validated just before - and the original must still be accepted right after
